@@ -13,6 +13,8 @@ import numpy as np
 import pandas as pd
 
 ID = "C14"
+# computational entry points whose results are watched by the engine's retained-result oracle (mc/explore.py)
+RETAIN = [('hydrodiy.data.dutils', 'var2h')]
 SUPERVISED = True
 CASE_TIMEOUT = 60.0
 RULE = ("every non-decreasing k-tuple of integer-second stamps on a 900 s lattice over 3 h (k=2..4 quick, ..5 thorough; "
